@@ -143,7 +143,13 @@ func unmarshalTargets() []any {
 	ps := &s
 	var iface interface{} = &s
 	return []any{nil, s, &s, &ps, np, npp, nps, npps, nppps, sl, &sl, m, &m, [2]int{}, &[2]int{}, make(chan int), 42, "x", &[][]int{}, &[]map[string]int{}, &[]*fzS{}, &[]**int{},
-		&iface, func() {}, &struct{ X chan int `xsel:"a"` }{}, &struct{ X [1]int `xsel:"a"` }{}, &struct{ X *[]**fzS `xsel:"a"` }{}, new(*int), new(int)}
+		&iface, func() {}, &struct {
+			X chan int `xsel:"a"`
+		}{}, &struct {
+			X [1]int `xsel:"a"`
+		}{}, &struct {
+			X *[]**fzS `xsel:"a"`
+		}{}, new(*int), new(int)}
 }
 
 // the child: reads cases "entry\x00input\x00extra\n" (hex-free: inputs are written length-prefixed) from a file
